@@ -5,6 +5,7 @@ import Rsbdd.Driver.CliCases
 import Rsbdd.Driver.EnvCases
 import Rsbdd.Driver.DotCases
 import Rsbdd.Driver.SetCases
+import Rsbdd.Driver.GenCases
 import Std.Data.HashSet
 
 namespace Rsbdd
@@ -22,6 +23,7 @@ def dispatch (fields : List String) : Verdict :=
   | "C13" :: rest => handleC13 rest
   | "C14" :: rest => handleC14 rest
   | "C19" :: rest => handleC19 rest
+  | "C15" :: rest => handleC15 rest
   | "C02" :: rest => handleC02 rest
   | "C03" :: rest => handleC03 rest
   | "C04" :: rest => handleC04 rest
